@@ -101,6 +101,17 @@ class _FieldOfDressed:
                 )
 
 
+def _is_default(default, value):
+    """True if `value` equals `default`, the declared default of its field
+    (None if the field has no default that can be built)"""
+    if default is None:
+        return False
+    if hasattr(default, "to_nplike"):  # xobject array
+        default = default.to_nplike()
+    default, value = np.asarray(default), np.asarray(value)
+    return default.shape == value.shape and bool(np.all(default == value))
+
+
 class JEncoder(json.JSONEncoder):
     def default(self, obj):
         if isinstance(obj, np.ndarray):
@@ -354,7 +365,9 @@ class HybridClass(metaclass=MetaHybridClass):
                 out[ff] = vv.to_dict()
             elif hasattr(vv, "_to_dict"):
                 out[ff] = vv._to_dict()
-            elif np.any(defaults.get(obj._inverse_rename.get(ff, ff)) != vv):
+            elif not _is_default(
+                defaults.get(obj._inverse_rename.get(ff, ff)), vv
+            ):
                 # Only include those scalar values that are not default.
                 out[ff] = vv
 
